@@ -119,6 +119,7 @@ func Main(id, tier string, seed int64, budget time.Duration, root, out string) i
 	seenClass := map[string]int{}
 	internal := false
 	seenCase := map[string]bool{}
+	var unrepro []Viol
 	for _, v := range viols {
 		if ck := v.Kind + "\x00" + string(v.Case); seenCase[ck] {
 			continue
@@ -136,15 +137,13 @@ func Main(id, tier string, seed int64, budget time.Duration, root, out string) i
 				ok = false
 				break
 			}
-			if g == w {
-				fmt.Fprintf(os.Stderr, "vcheck: internal error: %s case %s did not reproduce (run said got=%s want=%s, replay got=%s)\n", v.Kind, v.Case, v.Got, v.Want, g)
-				internal = true
-				ok = false
-				break
-			}
-			if k > 0 && (g != got || w != want) {
-				fmt.Fprintf(os.Stderr, "vcheck: internal error: %s case %s is not deterministic (%s vs %s)\n", v.Kind, v.Case, g, got)
-				internal = true
+			if g == w || (k > 0 && (g != got || w != want)) {
+				// The mismatch was observed during the run (against the real code) but the same
+				// case judged in isolation behaves differently: the behaviour depends on the call
+				// history (state the code carries between calls), or on a case that ran before it.
+				// It is kept aside: reported only if nothing reproducible is found.
+				fmt.Fprintf(os.Stderr, "vcheck: note: %s case %s does not reproduce in isolation (run: got=%s want=%s; alone: got=%s)\n", v.Kind, clip(string(v.Case), 200), clip(v.Got, 120), clip(v.Want, 120), clip(g, 120))
+				unrepro = append(unrepro, v)
 				ok = false
 				break
 			}
@@ -188,6 +187,24 @@ func Main(id, tier string, seed int64, budget time.Duration, root, out string) i
 		fmt.Printf("VIOLATION property=%s replay=%s\n", id, path)
 		fmt.Printf("  %s %s\n  got:  %s\n  want: %s\n", v.Kind, clip(string(v.Case), 400), clip(got, 400), clip(want, 400))
 	}
+	if reported == 0 && len(unrepro) > 0 && !internal {
+		// Only history-dependent mismatches were seen. They are facts about the code (the oracle
+		// judged a real call), so they are reported; the replay of such a finding is the run itself.
+		v := unrepro[0]
+		path := filepath.Join(out, "replays", fmt.Sprintf("%s-history-%s.json", id, tier))
+		r := map[string]interface{}{"property": id, "kind": "process", "class": "history", "tier": tier,
+			"case": map[string]interface{}{"command": "/verif/check.sh " + id + " " + tier, "observed_kind": v.Kind, "observed_case": json.RawMessage(v.Case)},
+			"got":  "during the run: " + v.Got + " - but the same case judged alone passes: the result depends on the call history",
+			"want": v.Want, "unreproduced_mismatches": len(unrepro),
+			"how_to_replay": []string{"/verif/check.sh replay " + path + "   (re-runs the whole check)"}}
+		b, _ := json.MarshalIndent(r, "", " ")
+		if err := os.WriteFile(path, append(b, '\n'), 0644); err == nil {
+			reported++
+			fmt.Printf("VIOLATION property=%s replay=%s\n", id, path)
+			fmt.Printf("  %s %s\n  during the run got: %s\n  want: %s\n  (judged alone the case passes: history-dependent behaviour; %d such mismatches)\n", v.Kind, clip(string(v.Case), 300), clip(v.Got, 300), clip(v.Want, 300), len(unrepro))
+		}
+	}
+	c.Set("mismatches_not_reproducible_in_isolation", len(unrepro))
 	if err := c.Finish(p, evPath, reported, knownHit); err != nil {
 		fmt.Fprintf(os.Stderr, "vcheck: cannot write evidence: %v\n", err)
 		return 2
